@@ -7,6 +7,7 @@ import Driver.Lock
 import Driver.Server
 import Driver.Filter
 import Driver.Dav
+import Driver.AuthGate
 open Lean
 
 def dispatch (j : Json) : Json :=
@@ -17,6 +18,7 @@ def dispatch (j : Json) : Json :=
   | "trace" => Driver.handleTrace j
   | "server" => Driver.handleServer j
   | "filter" => Driver.handleFilter j
+  | "authgate" => Driver.handleAuthGate j
   | "ping" => Driver.obj [("r", Json.str "pong")]
   | _ => Driver.obj [("error", Json.str "bad-model")]
 
